@@ -839,8 +839,12 @@ func TestPublicationVersions(t *testing.T) {
 				}
 			case "ack":
 				receipt := rapid.SampledFrom([]traits.Publication_Audience_Receipt{traits.Publication_Audience_ACCEPTED, traits.Publication_Audience_REJECTED}).Draw(t, "receipt")
-				res, err := srv.AcknowledgePublication(ctx, &traits.AcknowledgePublicationRequest{Name: "n", Id: "p", Version: before.Version, Receipt: receipt})
-				hist = append(hist, fmt.Sprintf("ack(%v)", receipt))
+				reason := ""
+				if receipt == traits.Publication_Audience_REJECTED && rapid.Bool().Draw(t, "withReason") {
+					reason = rapid.SampledFrom([]string{"unsupported media type", "too large", "r"}).Draw(t, "reason")
+				}
+				res, err := srv.AcknowledgePublication(ctx, &traits.AcknowledgePublicationRequest{Name: "n", Id: "p", Version: before.Version, Receipt: receipt, ReceiptRejectedReason: reason})
+				hist = append(hist, fmt.Sprintf("ack(%v,%q)", receipt, reason))
 				if acked {
 					if status.Code(err) != codes.FailedPrecondition {
 						t.Fatalf("acknowledging an already acknowledged version without allow_acknowledged: %v, want FailedPrecondition\nhistory: %s", err, strings.Join(hist, " "))
@@ -857,6 +861,13 @@ func TestPublicationVersions(t *testing.T) {
 					}
 					if res.Version != before.Version {
 						t.Fatalf("acknowledge changed the version")
+					}
+					// the acknowledgement state reflects the acknowledgement, in the response and in what is stored
+					stored, _ := m.GetPublication("p")
+					for _, p := range []*traits.Publication{res, stored} {
+						if got := p.GetAudience().GetReceiptRejectedReason(); got != reason || p.GetAudience().GetReceipt() != receipt {
+							t.Fatalf("acknowledged with %v and reason %q; the publication now says %v\nhistory: %s", receipt, reason, p.GetAudience(), strings.Join(hist, " "))
+						}
 					}
 					acked = true
 					ackCount++
